@@ -84,6 +84,12 @@ def run(check, repo: Repo) -> None:
                      f"`isinstance({valname}, skip_types)` → skip", mod.line(c),
                      fail_detail="an attribute reaches _serialize_value on a path where its value was not "
                                  "tested against skip_types")
+    # save-time type skipping is subclass-aware ("instances of the listed types"): an exact-type membership test `type(v) in skip_types` anywhere in the save
+    # routine misses nn.Parameter under skip=[torch.Tensor], nn.Linear under skip=[nn.Module] — a positively identified test, whatever the layout
+    exact = [n for n in ast.walk(fn) if isinstance(n, ast.Compare) and len(n.ops) == 1 and isinstance(n.ops[0], (ast.In, ast.NotIn)) and isinstance(n.left, ast.Call)
+             and call_name(n.left) == "type" and "skip_types" in unparse(n.comparators[0])]
+    check.decide(not exact, "C14-R1", "_recursive_save: skipping by type uses isinstance (subclass instances are skipped too)", "", mod.line(exact[0]) if exact else mod.line(fn),
+                 definite=True, fail_detail=f"`{unparse(exact[0])[:60]}` tests the exact type: instances of a SUBCLASS of a listed type are written to the file and come back on load" if exact else "")
     # no other route writes attributes of obj: every writer effect in _recursive_save other than
     # the class-identity tag goes through that call
     other = [c for c in calls_in(fn, nested=False)
@@ -323,6 +329,22 @@ def _rule_skip_normalisation(check, repo: Repo) -> None:
             check.decide(ok, "C14-R7", f"{q.split(':')[1]}: `{mut}` acts on a private copy of the skip argument on every path", "", m.line(nd.stmt), definite=True,
                          fail_detail=f"`{mut}` is reachable without `skip` having been rebound to a fresh list: the caller's own list object is extended, and a list reused for a "
                                      f"later save or load silently skips the added names as well")
+        # "is it a collection?" asked with an ABC a str satisfies: isinstance('count', Sequence / Iterable / Collection / Sized / Container) is True, so the bare-name
+        # form skip='count' is NOT wrapped and is iterated character by character — unless the same test excludes str
+        for t_ in [n_ for n_ in ast.walk(fn) if isinstance(n_, ast.Call) and call_name(n_) == "isinstance" and len(n_.args) == 2 and dotted(n_.args[0]) == "skip"]:
+            tys = unparse(t_.args[1])
+            if any(k in tys for k in ("Sequence", "Iterable", "Collection", "Sized", "Container", "Reversible")):
+                par_ = getattr(t_, "_parent", None)
+                guarded = "str" in tys and False
+                while isinstance(par_, (ast.BoolOp, ast.UnaryOp)):
+                    if isinstance(par_, ast.BoolOp) and any("str" in unparse(v_) and v_ is not t_ for v_ in par_.values):
+                        guarded = True
+                    par_ = getattr(par_, "_parent", None)
+                # an earlier `if isinstance(skip, str): skip = [skip]` also protects it
+                earlier = any(isinstance(n_, ast.If) and "isinstance(skip, str" in unparse(n_.test).replace("(str, type)", "str, type") and n_.lineno < t_.lineno for n_ in ast.walk(fn)) \
+                    or any(isinstance(n_, ast.If) and "isinstance(skip, (str" in unparse(n_.test) and n_.lineno < t_.lineno for n_ in ast.walk(fn))
+                check.decide(guarded or earlier, "C14-R7", f"{q.split(':')[1]}: `{unparse(t_)[:50]}` does not take a bare string for a collection of names", "", m.line(t_), definite=True,
+                             fail_detail=f"`{unparse(t_)[:60]}` is True for a str: skip='count' is iterated as the names 'c', 'o', 'u', 'n', 't' — the attribute `count` survives at every depth")
         # iteration sites of skip: comprehension over skip, list(skip)/tuple(skip)/set(skip), for-loops
         sites = []
         for node in walk_no_nested_defs(fn):
@@ -408,3 +430,4 @@ MANIFEST = {
 }
 MANIFEST["text"] += ' The delattr sweep over skip_names runs after every restoration loop.'
 MANIFEST["text"] += ' R7 also: every in-place extension of the skip argument is preceded on every path by a rebinding to a fresh list (must-pass-through on the CFG).'
+MANIFEST["text"] += " Also: an exact-type membership test `type(v) in skip_types` in the save routine is a definite violation (subclass instances must be skipped); an `isinstance(skip, Sequence/Iterable/…)` collection test that a bare str satisfies must be protected by a str test."
